@@ -40,13 +40,14 @@
    invariants.  As-built deviations (each one an OPEN finding in findings/c12.json):
        UncappedNonEmptyRepeat      ODS: repeats of non-empty cells / rows are materialised without a cap
        ExtractAllIgnoresFilter     7z: extractall() decompresses and writes every folder / member
-       NoOutputLimit               7z: LZMA2 folder decompressed without output limit (declared size ignored)
        UnboundedVectorCount        olefile: VT_VECTOR element count not checked against the data length
        UncappedSpaceCount          ODF: <text:s text:c="N"/> materialises N spaces
        DenseGridFromSparseCells    XLSX: rows/cells between sparse cells are padded (rows x columns)
        XrefPrevLoop                pypdf: an xref /Prev cycle is followed for ever
    Sensitivity-only deviations (mutations the check must catch; never as-built):
-       FlipCompare (> becomes >=), GuardAfterLoad, DecompressBeforeCheck, NoEmptyCap, PlainXmlParser.
+       FlipCompare (> becomes >=), GuardAfterLoad, DecompressBeforeCheck, NoEmptyCap, PlainXmlParser,
+       NoOutputLimit (7z: LZMA2 folder decompressed without output limit -- the behaviour before
+       proposed_fixes/c12-7z-lzma2-output-limit.diff).
 
    DON'T-CAREs: max_file_size < 0; whether read_file stats the file when max_file_size = 0; the attributes
    of the TooLarge exception; in-memory decompression of a skipped member that shares a solid 7z folder with
@@ -58,9 +59,10 @@ EXTENDS Naturals, Sequences, FiniteSets, TLC
 
 CONSTANT Deviations
 
-AsBuiltDeviations == {"UncappedNonEmptyRepeat", "ExtractAllIgnoresFilter", "NoOutputLimit",
+AsBuiltDeviations == {"UncappedNonEmptyRepeat", "ExtractAllIgnoresFilter",
                       "UnboundedVectorCount", "UncappedSpaceCount", "DenseGridFromSparseCells", "XrefPrevLoop"}
-SensitivityDeviations == {"FlipCompare", "GuardAfterLoad", "DecompressBeforeCheck", "NoEmptyCap", "PlainXmlParser"}
+SensitivityDeviations == {"FlipCompare", "GuardAfterLoad", "DecompressBeforeCheck", "NoEmptyCap", "PlainXmlParser",
+                          "NoOutputLimit"}
 DeviationNames == AsBuiltDeviations \cup SensitivityDeviations
 ASSUME Deviations \subseteq DeviationNames
 
